@@ -584,3 +584,63 @@ fn c11_utf8_model_equiv_3() {
 fn c11_utf8_model_equiv_4() {
     utf8_equiv::<4>()
 }
+
+/// close capsule with a reason of exactly RL bytes ('a' x RL, last byte symbolic ASCII), T = 8 + RL total bytes
+fn capsule_reason_boundary<const RL: usize, const T: usize>(expect_ok: bool) {
+    let mut buf = [b'a'; T];
+    let code: u32 = kani::any();
+    let last: u8 = kani::any();
+    kani::assume(last < 0x80);
+    buf[0] = 0x68;
+    buf[1] = 0x43;
+    let l = (4 + RL) as u16; // 2-byte varint (64..16383)
+    buf[2] = 0x40 | (l >> 8) as u8;
+    buf[3] = l as u8;
+    buf[4] = (code >> 24) as u8;
+    buf[5] = (code >> 16) as u8;
+    buf[6] = (code >> 8) as u8;
+    buf[7] = code as u8;
+    buf[T - 1] = last;
+    let f = Frame::new_data(Cow::Borrowed(&buf[..]));
+    let c = Capsule::with_frame(&f).expect("complete close capsule not recognised");
+    assert!(c.payload().len() == 4 + RL);
+    let r = CloseWebTransportSession::with_capsule(&c);
+    match r {
+        Ok(cl) => {
+            assert!(expect_ok, "close capsule with a reason longer than 1024 bytes accepted");
+            assert!(cl.error_code().into_inner() == code as u64, "close code altered");
+            assert!(cl.reason().len() == RL && cl.reason().as_bytes()[RL - 1] == last && cl.reason().as_bytes()[0] == b'a', "reason altered");
+            kani::cover!(true, "accepted");
+            core::mem::forget(cl);
+        }
+        Err(e) => {
+            assert!(!expect_ok, "close capsule with a reason of at most 1024 bytes (the documented maximum) refused");
+            assert!(e.to_code().into_inner() == 0x33);
+            kani::cover!(true, "refused");
+        }
+    }
+}
+
+// @h props=C04,C11 tier=quick t=2400 mem=20 sub=capsule-reason-boundary covers=any
+// @fn wtransport-proto/src/capsule/close_wt_session.rs CloseWebTransportSession::with_capsule; wtransport-proto/src/capsule/mod.rs Capsule::with_frame
+// @bound reason of exactly 1024 bytes (the maximum of the WebTransport draft): 1023 x 'a' + one symbolic ASCII byte; every 32-bit code
+// @oracle accepted with exactly that code and reason
+// @assume the reason is ASCII by construction; run_utf8_validation is stubbed to Ok for it (ASCII is well-formed UTF-8)
+#[kani::proof]
+#[kani::unwind(8)]
+#[kani::stub(core::str::validations::run_utf8_validation, crate::common::utf8_ascii_by_construction_stub)]
+fn c11_capsule_reason_1024() {
+    capsule_reason_boundary::<1024, 1032>(true)
+}
+
+// @h props=C04,C11 tier=quick t=2400 mem=20 sub=capsule-reason-boundary covers=any
+// @fn wtransport-proto/src/capsule/close_wt_session.rs CloseWebTransportSession::with_capsule
+// @bound reason of exactly 1025 bytes (one more than the maximum)
+// @oracle refused with H3_DATAGRAM_ERROR (malformed capsule => protocol failure, never an application close)
+// @assume as c11_capsule_reason_1024
+#[kani::proof]
+#[kani::unwind(8)]
+#[kani::stub(core::str::validations::run_utf8_validation, crate::common::utf8_ascii_by_construction_stub)]
+fn c11_capsule_reason_1025() {
+    capsule_reason_boundary::<1025, 1033>(false)
+}
